@@ -49,6 +49,36 @@ def key_for(row, inv):
     return "marshal:table:%s:flag=%s" % (cls(o), str(row["flag"]).lower())
 
 
+def finished(r):
+    """a TLC process killed from outside (seen on the shared machine: rc 143, no output) must not count as a clean run"""
+    return 0 <= r["rc"] < 128 and "Finished in" in r["out"]
+
+
+def sure(fn, *a, **kw):
+    """run a vlib TLC helper; if the run did not finish (or the helper gave up) try once more before giving up"""
+    for attempt in (1, 2):
+        try:
+            res = fn(*a, **kw)
+            r = res[1] if isinstance(res, tuple) else res
+            if finished(r):
+                return res
+            why = "TLC did not finish (rc=%s)" % r["rc"]
+        except vlib.Undecided as e:
+            why = str(e)
+            if attempt == 2:
+                raise
+        vlib.log("TLC run %s: %s; retrying once" % (a[1:3], why[:200]))
+    raise vlib.Undecided("TLC run %s did not finish twice: %s" % (a[1:3], why[:2000]))
+
+
+def trace_run(ctx, cfg, path, timeout):
+    """vlib.tlc_trace plus a completeness guard: an 'accepted' run must really have walked the whole trace."""
+    r = sure(vlib.tlc_trace, ctx, "TraceMarshal", cfg, path, timeout=timeout)
+    if r["accepted"] and (r["generated"] < r["n"] + 1 or "Model checking completed" not in r["out"]):
+        raise vlib.Undecided("TLC did not report a completed walk over %d trace lines (%d states):\n%s" % (r["n"], r["generated"], r["out"][-3000:]))
+    return r
+
+
 def bad_row_index(r):
     """index (0-based) of the line TLC could not accept"""
     if r["violated"]:
@@ -60,21 +90,23 @@ def bad_row_index(r):
 def run(ctx):
     # the negative controls and the generator are independent TLC runs: start them next to the two design checks
     with concurrent.futures.ThreadPoolExecutor(3) as ex:
-        negs = [ex.submit(vlib.tlc_neg, ctx, "Marshal", "Marshal_neg_%s.cfg" % sw, expect=inv, workers=1)
+        negs = [ex.submit(sure, vlib.tlc_neg, ctx, "Marshal", "Marshal_neg_%s.cfg" % sw, expect=inv, workers=1)
                 for sw, inv in (("BatchThreshold", "FlagTable"), ("SizeThreshold", "FlagTable"), ("OnlyIfSmallerOrForced", "UsefulOnly"),
                                 ("DecompressOnFlag", "RoundTrip"), ("CountFlagOverhead", "EntrySmaller"))]
-        gen = ex.submit(vlib.tlc_cases, ctx, "Marshal", "Marshal_gen.cfg")
-        vlib.tlc_mc(ctx, "Marshal", "Marshal_mc.cfg", workers=2)
-        vlib.tlc_mc(ctx, "Marshal", "Marshal_mc2.cfg", workers=2)
+        gen = ex.submit(sure, vlib.tlc_cases, ctx, "Marshal", "Marshal_gen.cfg")
+        sure(vlib.tlc_mc, ctx, "Marshal", "Marshal_mc.cfg", workers=2)
+        sure(vlib.tlc_mc, ctx, "Marshal", "Marshal_mc2.cfg", workers=2)
         for f in negs:
             f.result()
         cases, _ = gen.result()
+    if len(cases) < 1000:
+        raise vlib.Undecided("the generator produced only %d cases" % len(cases))
     inp = os.path.join(ctx.scratch, "marshal.cases.ndjson")
     tr = os.path.join(ctx.scratch, "marshal.trace.ndjson")
     det = os.path.join(ctx.scratch, "marshal.detail.ndjson")
     vlib.write_nd(inp, cases)
     args = ["marshal-replay", "-in", inp, "-out", tr, "-detail", det, "-mode", "direct",
-            "-k", str(ctx.pick(1, 6)), "-sample", str(ctx.pick(4, 1))]
+            "-k", str(ctx.pick(1, 5)), "-sample", str(ctx.pick(4, 1))]
     if ctx.thorough:
         args.append("-big")
     # the real two-node store runs in its own process (a node that cannot decode a log entry panics in its FSM),
@@ -92,7 +124,8 @@ def run(ctx):
     st["store_wall_s"] = round(time.time() - t0, 1)
     crashed = None
     if p2.returncode == 0:
-        st["store"] = json.loads(p2.stdout.strip().splitlines()[-1])["store"]
+        st2 = json.loads(p2.stdout.strip().splitlines()[-1])
+        st["store"], st["store_notes"] = st2["store"], {k: v for k, v in st2["gain_realised"].items() if k.startswith("store:")}
     elif "failed to unmarshal" in p2.stderr and os.path.exists(intent):
         crashed = json.load(open(intent))          # the request in flight when a node's FSM panicked on decoding
         st["store"] = "crashed"
@@ -149,13 +182,13 @@ def run(ctx):
         part = keep[lo:lo + CHUNK]
         path = os.path.join(ctx.scratch, "part-%d.ndjson" % lo)
         vlib.write_nd(path, part)
-        r = vlib.tlc_trace(ctx, "TraceMarshal", "TraceMarshal.cfg", path, timeout=ctx.pick(900, 2400))
+        r = trace_run(ctx, "TraceMarshal.cfg", path, ctx.pick(900, 2400))
         nruns += 1
         ctx.add("trace_events", r["n"])
         if r["accepted"]:
             continue
         first = part[min(max(bad_row_index(r), 0), len(part) - 1)]
-        d = vlib.tlc_trace(ctx, "TraceMarshal", "TraceMarshal_diag.cfg", path, timeout=ctx.pick(900, 2400))
+        d = trace_run(ctx, "TraceMarshal_diag.cfg", path, ctx.pick(900, 2400))
         nruns += 1
         bad = [(int(i), re.findall(r'"(\w+)"', names)) for i, names in re.findall(r'<<"@@BAD", (\d+), (\{[^}]*\})>>', d["out"])]
         if not d["accepted"] or not bad or first["id"] not in [i for i, _ in bad]:
@@ -188,7 +221,7 @@ def run(ctx):
     for name, rows2, want in (("decode-verdict", t1, "RoundTrip"), ("decision", t2, None)):
         path = os.path.join(ctx.scratch, "selftest-%s.ndjson" % name)
         vlib.write_nd(path, rows2)
-        r = vlib.tlc_trace(ctx, "TraceMarshal", "TraceMarshal.cfg", path, timeout=600)
+        r = sure(vlib.tlc_trace, ctx, "TraceMarshal", "TraceMarshal.cfg", path, timeout=600)
         if r["accepted"] or (want and r["violated"] != want):
             raise vlib.Undecided("binding self-test failed: TraceMarshal accepted a corrupted %s" % name)
         ctx.cov.setdefault("binding_selftests", []).append({"module": "TraceMarshal", "corrupted": name, "rejected": True, "violated": r["violated"]})
